@@ -260,8 +260,7 @@ pub fn run_check(check: &dyn Check, opts: &RunOpts) -> i32 {
     let outdir = Path::new(&verif_root()).join("out").join(id);
     let _ = std::fs::remove_dir_all(&outdir);
     std::fs::create_dir_all(&outdir).expect("create out dir");
-    let batch = check.run_batch(opts.tier, opts.seed);
-    let nshards = if batch.is_some() { 0 } else { check.shards(opts.tier) };
+    let nshards = if check.gens().is_empty() { 0 } else { check.shards(opts.tier) };
     let spawn = |shard: usize, part: usize, skip: Option<&str>| {
         let log = std::fs::OpenOptions::new().create(true).append(true).open(outdir.join(format!("worker-{}.log", shard))).expect("log");
         let mut cmd = Command::new(&opts.exe);
@@ -279,6 +278,8 @@ pub fn run_check(check: &dyn Check, opts: &RunOpts) -> i32 {
         Tier::Quick => Duration::from_secs(1500),
         Tier::Thorough => Duration::from_secs(5 * 3600),
     };
+    // the batch lane (generated crate: compile + run) works while the case workers are running
+    let batch = check.run_batch(opts.tier, opts.seed);
     let mut merged = batch.unwrap_or_default();
     let mut harness_problems: Vec<String> = vec![];
     let mut crash_restarts = 0usize;
